@@ -33,6 +33,7 @@ func init() {
 			ruleRequestPathIsMatched(c, "R10")
 			ruleStrictValidated(c, "R11")
 			ruleIndexResetOnEveryPath(c, "R5c")
+			ruleInterceptorSelection(c, "R12")
 		},
 	})
 }
